@@ -1178,7 +1178,11 @@ std::string eval_macro_callback(
     auto res = runtime.evaluate_expression(params[0], success, false);
     return success ? res.data()->to_string_sqf() : "";
 }
-static int __counter__ = 0;
+// __COUNTER__ belongs to the VM instance it is expanded in (not to the process)
+struct counter_storage : public ::sqf::runtime::runtime::datastorage
+{
+    int value = 0;
+};
 std::string counter_macro_callback(
     const ::sqf::runtime::parser::macro& m,
     const ::sqf::runtime::diagnostics::diag_info dinf,
@@ -1186,7 +1190,7 @@ std::string counter_macro_callback(
     const std::vector<std::string>& params,
     ::sqf::runtime::runtime& runtime)
 {
-    return std::to_string(__counter__++);
+    return std::to_string(runtime.storage<counter_storage>().value++);
 }
 std::string counter_reset_macro_callback(
     const ::sqf::runtime::parser::macro& m,
@@ -1195,7 +1199,7 @@ std::string counter_reset_macro_callback(
     const std::vector<std::string>& params,
     ::sqf::runtime::runtime& runtime)
 {
-    __counter__ = 0;
+    runtime.storage<counter_storage>().value = 0;
     return "";
 }
 
